@@ -963,6 +963,9 @@ class ndarray(_OpsMixin):
             if dt.kind == "b" and self.dtype.kind in "iu":
                 newc = [(_as_bool_term(c) if is_sym(c) else builtins.bool(c)) for c in self._cells()]
                 return ndarray(_Store(newc), list(range(self.size)), self.shape, dt)
+            if self.dtype.kind == "f" and dt.kind in "iu" and _py_all(not is_sym(c) for c in self._cells()):
+                newc = [_wrap_int(_float_bits(float(c), self.dtype).as_long(), dt) for c in self._cells()]
+                return ndarray(_Store(newc), list(range(self.size)), self.shape, dt)      # snapshot of concrete floats as bit patterns
             if {dt.kind, self.dtype.kind} <= {"f", "u", "i"} and _py_all(is_sym(c) and z3.is_bv(c) for c in self._cells()):
                 return ndarray(self._store, self._pos, self.shape, dt, self._contig)   # float <-> uint bit pattern: shared store
             raise ShimUnsupported(f"view {self.dtype}->{dt}")
@@ -1435,9 +1438,10 @@ def _fresh_cell(dt):
 
 
 def _shape_arg(shape):
-    if isinstance(shape, (tuple, list)):
-        return tuple(int(s) for s in shape)
-    return (int(shape),)
+    shp = tuple(int(s) for s in shape) if isinstance(shape, (tuple, list)) else (int(shape),)
+    if _py_any(d < 0 for d in shp):
+        raise ValueError("negative dimensions are not allowed")
+    return shp
 
 
 def full(shape, fill_value, dtype=None):
